@@ -314,3 +314,98 @@ impl System for Flat {
 		}
 	}
 }
+
+/// A flat stream with ONE burst: a short pattern of offsets from the level (a compensated bump such as
+/// +1, -2, +1 whose sum and first moment vanish, a ramp, a pulse pair ...) inserted at one position; the
+/// level is held for span+3 steps afterwards. The patterns are what a running sum / running weighted sum
+/// cannot tell from a flat window by looking at its totals. Value inputs only.
+pub struct Burst {
+	pub sys: MSys,
+	/// offsets from the level, one pattern per entry
+	pub patterns: Vec<Vec<f64>>,
+	/// positions (steps before the burst) allowed for a window length; None = every position up to 2*span+2
+	pub positions: Option<fn(usize) -> Vec<u32>>,
+}
+#[derive(Clone)]
+pub struct BState {
+	pub m: MState,
+	pub depth: u32,
+	pub burst_end: Option<u32>,
+}
+impl System for Burst {
+	type State = BState;
+	type Act = Option<usize>;
+	fn name(&self) -> String {
+		self.sys.name.clone()
+	}
+	fn inits(&self) -> Vec<(BState, String)> {
+		self.sys.inits().into_iter().map(|(m, l)| (BState { m, depth: 0, burst_end: None }, l)).collect()
+	}
+	fn actions(&self, s: &BState, _: u32) -> Vec<(Option<usize>, u8)> {
+		let n = s.m.span as u32;
+		match s.burst_end {
+			Some(e) => {
+				if s.depth > e + n + 3 { vec![] } else { vec![(None, 0)] }
+			}
+			None => {
+				let mut v = vec![];
+				if s.depth < 2 * n + 2 {
+					v.push((None, 0));
+				}
+				let allowed = match self.positions {
+					None => true,
+					Some(f) => f(s.m.span).contains(&s.depth),
+				};
+				if allowed {
+					v.extend((0..self.patterns.len()).map(|i| (Some(i), 1)));
+				}
+				v
+			}
+		}
+	}
+	fn show_act(&self, a: &Option<usize>) -> String {
+		match a {
+			None => "level".into(),
+			Some(i) => format!("burst{:?}", self.patterns[*i]),
+		}
+	}
+	fn step(&self, s: &BState, a: &Option<usize>) -> Step<BState> {
+		let level = s.m.prev;
+		let In::V(lv) = level else { return Step::Prune };
+		let seq: Vec<In> = match a {
+			None => vec![level],
+			Some(i) => self.patterns[*i].iter().map(|d| In::V(lv + *d as yata::core::ValueType)).chain([level]).collect(),
+		};
+		let mut m = s.m.clone();
+		let mut depth = s.depth;
+		let mut exempt = None;
+		for x in &seq {
+			match self.sys.step(&m, x) {
+				Step::Next(n) => m = n,
+				Step::Exempt(n, w) => {
+					m = n;
+					exempt = Some(w);
+				}
+				Step::ViolationContinue(n, f) => {
+					let _ = n;
+					return Step::Violation(f);
+				}
+				Step::Violation(f) => return Step::Violation(Failure::new(f.sig, format!("{} [inside the burst, at value {}]", f.detail, x.show()))),
+				Step::Prune => return Step::Prune,
+			}
+			depth += 1;
+		}
+		// the level is what continues
+		m.prev = level;
+		let n = BState { m, depth, burst_end: if a.is_some() { Some(depth) } else { s.burst_end } };
+		match exempt {
+			Some(w) => Step::Exempt(n, w),
+			None => Step::Next(n),
+		}
+	}
+}
+
+/// the burst patterns: compensated bumps (zero sum, zero first moment), zero-sum pairs, ramps, a plateau
+pub fn burst_patterns() -> Vec<Vec<f64>> {
+	vec![vec![1.0, -2.0, 1.0], vec![-1.0, 2.0, -1.0], vec![1.0, -1.0], vec![1.0, 0.0, -1.0], vec![1.0, 1.0, -2.0], vec![1.0, -3.0, 3.0, -1.0], vec![2.0, 2.0, 2.0], vec![1.0, 2.0, 3.0], vec![1.0, -2.0, 0.0, 2.0, -1.0]]
+}
